@@ -29,7 +29,7 @@ runall clean
 for d in "$HERE"/seeded/*/; do
   k=$(basename "$d")
   # MATRIX_ONLY=<extended regexp>: only the changes whose id matches, e.g. '-[K-N]$'
-  if [ -n "${MATRIX_ONLY:-}" ] && ! echo "$k" | grep -Eq "$MATRIX_ONLY"; then continue; fi
+  if [ -n "${MATRIX_ONLY:-}" ] && ! echo "$k" | grep -Eq -- "$MATRIX_ONLY"; then continue; fi
   git -C "$W/repo" apply "$d/patch.diff" || { printf '%s\tAPPLY-FAILED\n' "$k" >> "$out"; continue; }
   if build; then runall "$k"; else printf '%s\tBUILD-FAILED\n' "$k" >> "$out"; fi
   git -C "$W/repo" checkout -q -- .
